@@ -294,8 +294,12 @@ func handoffDrained(c *cx, id string) {
 			if cl == nil || len(cl.Args) != 2 {
 				return false
 			}
-			idn, ok := ast.Unparen(cl.Args[1]).(*ast.Ident)
-			return ok && f.Info().ObjectOf(idn) == v
+			if idn, ok := ast.Unparen(cl.Args[1]).(*ast.Ident); ok && f.Info().ObjectOf(idn) == v {
+				return true
+			}
+			// the drain of the handler path: the rest of the element is copied to
+			// the package's discard writer
+			return f.Norm(cl.Args[0], &q) == "mellium.im/xmlstream.Discard()"
 		}
 		for _, rs := range g.Returns {
 			pt, _ := g.Where(rs)
@@ -308,4 +312,35 @@ func handoffDrained(c *cx, id string) {
 		}
 	}
 	c.r.Floor(id, "returns after the hand-off", n, 1)
+}
+
+// cancelledWaiterToHandler: when the serve loop finds a waiter for a response
+// but the waiter's context is done, nobody will take the response: like every
+// other response nobody waits for, it goes to the handler. From the
+// ctx.Done() arm of the hand-off select every path to a non-error return
+// passes the handler call.
+func cancelledWaiterToHandler(c *cx, id string) {
+	f := c.fn(id, "", "handleInputStream")
+	if f == nil {
+		return
+	}
+	g := f.Graph()
+	isHandler := func(q eng.Point, nd ast.Node) bool { return f.ContainsCall(nd, "xmpp.Handler.HandleXMPP") != nil }
+	n := 0
+	for _, ce := range g.EdgesMatching("selectarm(recv context.Context.Done[*]())") {
+		from := g.EdgeTarget(ce.E)
+		n++
+		bad := ""
+		for _, rs := range g.Returns {
+			pt, _ := g.Where(rs)
+			if g.RetKindOf(rs) == eng.RetError {
+				continue
+			}
+			if g.Reachable(from, pt, nil, isHandler) {
+				bad = "return at " + c.p.Pos(rs.Pos()) + " is reached from the cancelled arm without calling the handler: the response is delivered to nobody"
+			}
+		}
+		c.r.Check(id, f, "response of a cancelled waiter goes to the handler", "O: from the ctx.Done() arm of the hand-off every non-error return passes Handler.HandleXMPP", f.Pos(), bad == "", bad)
+	}
+	c.r.Floor(id, "cancelled arms of the hand-off", n, 1)
 }
